@@ -349,7 +349,7 @@ func emit(p *Prop, pr *PropResult, rr *RunResult, kf []knownFinding, tier string
 	nViol, nKnown, nOK, nUnres, facts := 0, 0, 0, 0, 0
 	distinct := map[string]bool{}
 	var samples []interface{}
-	var lines []string
+	var lines, all []string
 	for i := range pr.Obligations {
 		o := &pr.Obligations[i]
 		facts += o.Facts
@@ -387,6 +387,11 @@ func emit(p *Prop, pr *PropResult, rr *RunResult, kf []knownFinding, tier string
 			lines = append(lines, fmt.Sprintf("  rule=%s construct=%s at %s: %s", o.Rule, o.Construct, o.Pos, o.Detail))
 			lines = append(lines, fmt.Sprintf("  obligation: %s", o.Desc))
 		}
+		vac := ""
+		if o.Vacuous {
+			vac = " (vacuous)"
+		}
+		all = append(all, fmt.Sprintf("%s | %s | %s | %s%s | facts=%d", o.Rule, o.Construct, o.Pos, st, vac, o.Facts))
 		if len(samples) < 6 || st != "OK" && len(samples) < 14 {
 			samples = append(samples, map[string]interface{}{"rule": o.Rule, "construct": o.Construct, "obligation": o.Desc, "verdict": st, "pos": o.Pos, "detail": o.Detail})
 		}
@@ -415,6 +420,7 @@ func emit(p *Prop, pr *PropResult, rr *RunResult, kf []knownFinding, tier string
 			"distinct_nontrivial": len(distinct),
 			"rule":                "one obligation per (rule, construct) row of the frozen table; evaluations counts the SSA instructions / call-graph edges / sites inspected for them; distinct_nontrivial counts rows that matched at least one construct in today's tree (non-vacuous)",
 			"samples":             samples,
+			"obligation_list":     all,
 			"checker_cmd":         fmt.Sprintf("./bin/vcheck -p %s -tier %s", p.ID, tier),
 			"trusted_base":        []string{"go/types type checker", "golang.org/x/tools v0.29.0 go/ssa, callgraph/vta", "the rule tables in /verif/cmd/vcheck (each row confirmed by reading)"},
 			"packages":            rr.Packages,
